@@ -182,6 +182,9 @@ Inductive op :=
 | Insert (i : Z) (s : list Z)
 | Where (m : list bool) (s : list Z)
 | Split (sep : Z)
+| SplitL (seps : list Z)                 (* strops.split with a LIST of separator characters *)
+| Rows2D (k : Z) (s : sel)               (* a.reshape(-1, k)[s].ravel(): first-axis indexing of a 2-d encoded array *)
+| SetRows2D (k : Z) (s : sel) (c : Z)    (* y = a.reshape(-1, k); y[s] = 'c'; y.ravel() *)
 | Stack (ps : list part).
 
 Inductive obs :=
@@ -200,6 +203,7 @@ Record prims := {
   p_dec : enc -> Z -> Z;                               (* stored code -> character, for text output *)
   p_join : list (list Z) -> Z -> bool -> list Z;
   p_split : list Z -> Z -> list (list Z);
+  p_splitl : list Z -> list Z -> list (list Z);        (* text, separators *)
   p_streq : list (list Z) -> list Z -> list bool;
   p_streq2 : list (list Z) -> list (list Z) -> list bool;
   p_rslice : list (list Z) -> list Z -> option (list Z) -> option (list (list Z));
@@ -257,6 +261,10 @@ Definition pick_col (j : Z) (r : list Z) : option Z :=
   match norm_idx (len r) j with Some k => nth_error r (Z.to_nat k) | None => None end.
 Definition pick_elem (rows : list (list Z)) (i j : Z) : option Z :=
   match norm_idx (len rows) i with Some k => pick_col j (nth (Z.to_nat k) rows []) | None => None end.
+
+(* the rows of a.reshape(-1, k) *)
+Definition rows2d (k : Z) (s : list Z) : list (list Z) :=
+  map (fun i => gather s (arange_from (i * k) (Z.to_nat k))) (arange (len s / k)).
 
 Definition parts_rows (e : enc) (rows : list (list Z)) (ps : list part) : option (list (list Z)) :=
   match all_some (map (fun p => match p with
@@ -473,6 +481,28 @@ Definition step_flat (e : enc) (s : list Z) (o : op) : value * obs :=
   | Iter => (v, OS (map (fun c => [p_dec P e c]) s))
   | Split sep => match p_prep P e sep with
                  | Some sep' => keep (VR e (p_split P s sep')) | None => bad v end
+  | SplitL seps => match seps with
+                   | [] => bad v
+                   | _ => match prep_str e seps with
+                          | Some seps' => keep (VR e (p_splitl P s seps')) | None => (v, OErr) end
+                   end
+  | Rows2D k sl =>
+      if (0 <? k) && (n mod k =? 0) then
+        match sel_pos (n / k) sl with
+        | Some pos => keep (VF e (concat (gather (rows2d k s) pos)))
+        | None => bad v end
+      else bad v
+  | SetRows2D k sl c =>
+      if (0 <? k) && (n mod k =? 0) then
+        match sel_pos (n / k) sl with
+        | Some pos =>
+            if negb (nodupb pos) then bad v else
+            match p_prep P e c with
+            | Some c' => let cells := concat (map (fun i => arange_from (i * k) (Z.to_nat k)) pos) in
+                         keep (VF e (scatter s cells (repeat c' (length cells))))
+            | None => (v, OErr) end
+        | None => bad v end
+      else bad v
   | Stack ps => match parts_stack s ps with
                 | Some (r :: rs) => keep (VR e (r :: rs)) | _ => bad v end
   | RSlice starts ends =>          (* a[starts:ends] with array bounds (NPSArray._ragged_slice) *)
@@ -519,6 +549,15 @@ End Step.
 Definition s_join (rows : list (list Z)) (sep : Z) (keep_last : bool) : list Z :=
   let s := concat (map (fun r => r ++ [sep]) rows) in if keep_last then s else removelast s.
 Definition s_split (s : list Z) (sep : Z) : list (list Z) := split_on sep s.
+(* split where any character satisfying p separates: "a=1;b" with p = (in "=;") -> ["a";"1";"b"] *)
+Fixpoint split_by (p : Z -> bool) (l : list Z) : list (list Z) :=
+  match l with
+  | [] => [[]]
+  | x :: r => let rest := split_by p r in
+              if p x then [] :: rest
+              else match rest with h :: t => (x :: h) :: t | [] => [[x]] end
+  end.
+Definition s_split_l (s : list Z) (seps : list Z) : list (list Z) := split_by (fun x => memb x seps) s.
 Definition s_streq (rows : list (list Z)) (s : list Z) : list bool := map (fun r => zlist_eqb r s) rows.
 Definition s_streq2 (rows l : list (list Z)) : list bool := map2 zlist_eqb rows l.
 (* bnp.ragged_slice: segments [start, end) of the flattened text; a negative end counts from the end of
@@ -533,7 +572,7 @@ Definition s_rslice (rows : list (list Z)) (starts : list Z) (ends : option (lis
 
 Definition spec_prims : prims := {|
   p_prep := s_prep; p_dec := fun _ c => c;
-  p_join := s_join; p_split := s_split; p_streq := s_streq; p_streq2 := s_streq2;
+  p_join := s_join; p_split := s_split; p_splitl := s_split_l; p_streq := s_streq; p_streq2 := s_streq2;
   p_rslice := s_rslice; p_sarr := fun _ rows => Some rows |}.
 Definition s_step := g_step spec_prims.
 Definition s_run := g_run spec_prims.
@@ -588,6 +627,17 @@ Definition m_split (s : list Z) (sep : Z) : list (list Z) :=
               | _ :: r => m_split_first_len (nthZ sep_idx 0) :: r
               | [] => [] end in
   map (@removelast Z) (rows_by_lens us lens).
+
+(* the same routine when sep is a list: mask = (us == sep[0]) | (us == sep[1]) | ... *)
+Definition m_split_p (p : Z -> bool) (s : list Z) : list (list Z) :=
+  let us := s ++ [0] in
+  let mask := set_last true (map p us) in
+  let sep_idx := flatnonzero mask in
+  let lens := match diff (0 :: sep_idx) with
+              | _ :: r => m_split_first_len (nthZ sep_idx 0) :: r
+              | [] => [] end in
+  map (@removelast Z) (rows_by_lens us lens).
+Definition m_split_l (s : list Z) (seps : list Z) : list (list Z) := m_split_p (fun x => existsb (fun sp => x =? sp) seps) s.
 
 (* strops.str_equal (340-372): mask = lengths == L; starts = shape.starts[mask];
    matrix = flat[starts[:,None] + arange(L)]; mask[mask] &= all(matrix == match, axis=-1) *)
@@ -654,7 +704,7 @@ Definition m_sarr (vr : variant) (e : enc) (rows : list (list Z)) : option (list
 
 Definition model_prims_with (prep : enc -> Z -> option Z) (vr : variant) : prims := {|
   p_prep := prep; p_dec := decode1;
-  p_join := m_join; p_split := m_split; p_streq := m_streq; p_streq2 := m_streq2;
+  p_join := m_join; p_split := m_split; p_splitl := m_split_l; p_streq := m_streq; p_streq2 := m_streq2;
   p_rslice := m_rslice; p_sarr := m_sarr vr |}.
 Definition model_prims := model_prims_with m_prep repaired.                    (* /repo HEAD *)
 Definition model_prims_pinned_lookup := model_prims_with m_prep_pinned repaired.   (* with the table before the C06 repair *)
